@@ -235,4 +235,71 @@ theorem comOne_eq_spec (h w : Nat) (I : Pattern ℝ) (hI : Rect h w I) : comOne 
   unfold comOne comSpec
   rw [rowGrid_moment h w I hI, colGrid_moment h w I hI, sum2_real]
 
+/-! ### scale invariance (ℝ) -/
+
+theorem mul2_real (I G : Pattern ℝ) :
+    mul2 I G = List.zipWith (fun ra rb => List.zipWith (fun a b : ℝ => a * b) ra rb) I G := rfl
+
+theorem scale2_real (c : ℝ) (I : Pattern ℝ) :
+    scale2 c I = I.map (fun row => row.map (fun v : ℝ => c * v)) := rfl
+
+theorem zipWith_scale_row (c : ℝ) : ∀ (row g : List ℝ),
+    List.zipWith (fun a b : ℝ => a * b) (row.map (fun v : ℝ => c * v)) g
+      = (List.zipWith (fun a b : ℝ => a * b) row g).map (fun v : ℝ => c * v) := by
+  intro row
+  induction row with
+  | nil => intro g; simp
+  | cons a as ih =>
+    intro g
+    cases g with
+    | nil => simp
+    | cons b bs =>
+      simp only [List.map_cons, List.zipWith_cons_cons, ih]
+      congr 1
+      exact mul_assoc c a b
+
+theorem mul2_scale2 (c : ℝ) : ∀ (I G : Pattern ℝ), mul2 (scale2 c I) G = scale2 c (mul2 I G) := by
+  intro I
+  induction I with
+  | nil => intro G; simp [mul2_real, scale2_real]
+  | cons r rs ih =>
+    intro G
+    cases G with
+    | nil => simp [mul2_real, scale2_real]
+    | cons g gs =>
+      have ih' := ih gs
+      rw [mul2_real, scale2_real, mul2_real, scale2_real] at ih'
+      rw [mul2_real, scale2_real, mul2_real, scale2_real]
+      simp only [List.map_cons, List.zipWith_cons_cons]
+      rw [ih', zipWith_scale_row]
+
+theorem sum_map_mul_left' (c : ℝ) (r : List ℝ) : (r.map (fun v : ℝ => c * v)).sum = c * r.sum := by
+  induction r with
+  | nil => simp
+  | cons a as iha => simp only [List.map_cons, List.sum_cons, iha]; ring
+
+theorem total_scale2 (c : ℝ) (I : Pattern ℝ) : total (scale2 c I) = c * total I := by
+  rw [scale2_real]
+  unfold total
+  rw [List.map_map]
+  induction I with
+  | nil => simp
+  | cons r rs ih =>
+    simp only [List.map_cons, List.sum_cons, Function.comp_def] at ih ⊢
+    rw [ih, sum_map_mul_left']; ring
+
+/-- the centre of mass does not depend on the unit of the intensities -/
+theorem comOne_scale (c : ℝ) (hc : c ≠ 0) (h w : Nat) (I : Pattern ℝ) :
+    comOne h w (scale2 c I) = comOne h w I := by
+  unfold comOne
+  rw [mul2_scale2, mul2_scale2]
+  simp only [sum2_real, total_scale2, NumReal.div_eq]
+  rw [mul_div_mul_left _ _ hc, mul_div_mul_left _ _ hc]
+
+theorem maskWith_scale (c : ℝ) (mask : Option (Pattern ℝ)) (I : Pattern ℝ) :
+    maskWith mask (scale2 c I) = scale2 c (maskWith mask I) := by
+  cases mask with
+  | none => rfl
+  | some m => exact mul2_scale2 c I m
+
 end QuantemModel.Origin
